@@ -117,6 +117,7 @@ def write_instance(ctx, name, base, q, pubs, subs, bufs, reqs, nchunks, maxids, 
     with open(os.path.join(d, f"{name}.cfg"), "w") as f:
         f.write(f"SPECIFICATION {spec}\nCONSTANTS\n PubIds = {setstr(pubs)}\n SubIds = {setstr(subs)}\n Q <- QV\n"
                 f" BufChoices = {setstr(bufs)}\n ReqChoices = {setstr(reqs)}\n NChunks = {nchunks}\n MaxIds = {maxids}\n"
+                " AllowKnown <- FalseValue\n"
                 + (f" GenLen = {genlen}\n" if genlen is not None else "")
                 + "CHECK_DEADLOCK FALSE\n" + cfg_extra)
     return d
@@ -327,6 +328,37 @@ def trace_module(ctx, pid):
     return d, name
 
 
+KD_SIGNATURE = {
+    "sample-lost": ("C01", "pubsub:sample-lost:publisher-dropped-before-subscriber-attached",
+                    "samples are lost: send counted a subscriber whose receiver side was not yet attached, the publisher "
+                    "was dropped before that subscriber's next receive/has_samples/update_connections, and the samples "
+                    "waiting for it were discarded with the connection"),
+    "borrow-per-connection": ("C08", "pubsub:max-borrowed-per-connection-not-per-subscriber",
+                              "a receive succeeds although the subscriber already holds subscriber_max_borrowed_samples "
+                              "samples (the limit is enforced per publisher connection, not per subscriber)"),
+}
+_re_kdpath = re.compile(r'<<"KD_PATH", (\d+), \{([^}]*)\}>>')
+
+
+def known_defect_tags(output, items):
+    """Per run: the known-defect tags that EVERY explanation of the run carries (an explanation without a
+    tag means the run is explainable by the documented behaviour)."""
+    ends, acc = {}, 0
+    for i, (run, _) in enumerate(items):
+        for k, r in enumerate(run):
+            if r.get("k") == "end":
+                ends[acc + k + 1] = i
+        acc += len(run)
+    per_run = {}
+    for m in _re_kdpath.finditer(output):
+        i = ends.get(int(m.group(1)))
+        if i is None:
+            continue
+        tags = {t.strip().strip('"') for t in m.group(2).split(",") if t.strip()}
+        per_run[i] = tags if i not in per_run else (per_run[i] & tags)
+    return {i: t for i, t in per_run.items() if t}
+
+
 def describe(e):
     keys = [k for k in ("p", "s", "id", "buf", "req", "c", "n", "blk", "cnt", "cs", "v", "cok", "r", "msg") if k in e]
     return e.get("a", e.get("k")) + "(" + ", ".join(f"{k}={e[k]}" for k in keys) + ")" + \
@@ -344,12 +376,20 @@ def validate(ctx, pid, trace, jobs, label, max_rounds=6):
         raise vp.ToolError(f"{label}: {len(runs)} recorded runs for {len(jobs)} jobs")
     items = list(zip(runs, jobs))
     explained, rounds = 0, 0
+    tagged = {}                 # tag -> list of (run, job), each run once
+    seen_runs = set()
     while items:
         cur = os.path.join(os.path.dirname(trace), f"{label}.{pid}.cur.ndjson")
         vp.write_ndjson(cur, [r for run, _ in items for r in run])
         v = vp.tlc_trace(d, name, cur, libs=["api"], timeout=1800)
         vp.record_tlc(ctx, f"PubSubTrace[{label}: {sum(len(r) for r, _ in items)} records, {len(items)} runs]",
                       v.res, count=False)
+        for i, tags in known_defect_tags(v.res.output, items).items():
+            run_i, job_i = items[i]
+            if id(run_i) not in seen_runs:
+                seen_runs.add(id(run_i))
+                for t in tags:
+                    tagged.setdefault(t, []).append((run_i, job_i))
         if v.accepted:
             explained += len(items)
             break
@@ -397,6 +437,21 @@ def validate(ctx, pid, trace, jobs, label, max_rounds=6):
             ctx.note(f"{label}: validation stopped after {max_rounds} rejected runs ({len(items)} runs not validated)")
             break
     ctx.traces_validated += explained
+    # known-defect shapes: explained only through a tagged alternative of the specification
+    for tag, lst in sorted(tagged.items()):
+        owner, sig, text = KD_SIGNATURE[tag]
+        ctx.coverage.setdefault("known_defect_shapes", {})[tag] = ctx.coverage.get("known_defect_shapes", {}).get(tag, 0) + len(lst)
+        if owner != pid:
+            continue
+        run, job = min(lst, key=lambda x: len(x[0]))
+        ctx.report(vp.Violation(
+            f"{label}: {text} - {len(lst)} run(s), shortest: QoS {short_reset(run[0])}",
+            replay={"kind": "trace", "known_defect_shape": tag, "runs_affected": len(lst),
+                    "qos": {k: run[0].get(k) for k in run[0] if k != "k"},
+                    "history": [describe(r) for r in run[1:]][:400], "job": job,
+                    "cmd": "drv-pubsub exec --work <dir> --jobs <file containing [job]> --out t.ndjson ; "
+                           "TRACE=t.ndjson tlc spec/api/PubSubTrace (KD_PATH lines = tags of every explanation)"},
+            signature=sig))
     return explained
 
 
